@@ -1,7 +1,73 @@
-(* C17 — Chunk unification aligns operands without changing values or inflating blocks. *)
-From DA Require Import PyBase Unify.
+(* C17 — Chunk unification aligns operands without changing values or inflating blocks.
+   Statements only; proofs in theories/UnifyFacts.v.  One axis at a time:
+   refines_b fine coarse = true  means rechunking coarse -> fine only SPLITS blocks. *)
+From DA Require Import PyBase Unify UnifyFacts.
 Open Scope Z_scope.
 
-Example C17_common_example : common_blockdim [[5;2];[4;3]] = UOk [4;1;2].
+(* 'refine' policy (common_blockdim): the unified layout only splits every operand ... *)
+Theorem C17_refine_only_splits :
+  forall ds n r, Forall pos_layout ds -> (forall d, In d ds -> zsum d = n) ->
+  common_blockdim ds = UOk r ->
+  forall d, In d ds -> refines_b r d = true.
+Proof. exact common_blockdim_refines. Qed.
+
+(* ... it is the FINEST common refinement (boundaries = union of the operands' boundaries) ... *)
+Theorem C17_common_is_finest_refinement :
+  forall ds n r, Forall pos_layout ds -> (forall d, In d ds -> zsum d = n) ->
+  common_blockdim ds = UOk r ->
+  pos_layout r /\ (ds <> [] -> zsum r = n) /\
+  (forall z, In z (inner_bounds r) <-> exists d, In d ds /\ In z (inner_bounds d)).
+Proof. exact common_blockdim_finest. Qed.
+
+(* ... and therefore never grows any operand's block *)
+Theorem C17_refine_no_growth :
+  forall ds n r, Forall pos_layout ds -> (forall d, In d ds -> zsum d = n) ->
+  common_blockdim ds = UOk r ->
+  forall d, In d ds -> zmax_list r <= zmax_list d.
+Proof. exact common_blockdim_no_growth. Qed.
+
+(* with zero-size chunks the 'only splits' clause is refuted: (0,5) and (5,0) unify to (0,5) *)
+Theorem C17_refine_zero_chunk_refuted :
+  exists ds r d, Forall nonneg_layout ds /\ (forall x, In x ds -> zsum x = 5) /\
+    common_blockdim ds = UOk r /\ In d ds /\ refines_b r d = false.
+Proof.
+  exists [[0;5];[5;0]], [0;5], [5;0].
+  repeat split; try (vm_compute; reflexivity).
+  - repeat constructor; lia.
+  - intros x [<-|[<-|[]]]; reflexivity.
+  - right; left; reflexivity.
+Qed.
+
+(* 'auto'/'coarse' (coarse_blockdim), for every tie-break oracle `pick`: the chosen layout is
+   either the common refinement or an operand's own layout that every other operand refines *)
+Theorem C17_coarse_is_operand_or_refinement :
+  forall pick ds r, coarse_blockdim pick ds = UOk r ->
+  common_blockdim ds = UOk r \/
+  (In r ds /\ (1 < length r)%nat /\
+   forall d, In d ds -> (1 < length d)%nat -> refines_b d r = true).
+Proof. exact coarse_blockdim_spec_gen. Qed.
+
+(* a refinement never has a larger block (zero-size chunks allowed) *)
+Theorem C17_refinement_never_grows_blocks :
+  forall fine coarse, nonneg_layout fine -> nonneg_layout coarse ->
+  refines_b fine coarse = true -> zmax_list fine <= zmax_list coarse.
+Proof. exact refines_b_zmax. Qed.
+
+(* moved_fraction (the cost model of the policy choice; also C27) *)
+Theorem C17_moved_fraction_range :
+  forall src dst n m, nonneg_layout dst -> moved_fraction src dst = (n, m) ->
+  0 <= n /\ n <= m /\ (0 < m \/ (n = 0 /\ m = 1)).
+Proof. exact moved_fraction_range. Qed.
+
+Example C17_ex_interleaved : common_blockdim [[5;2];[4;3];[7]] = UOk [4;1;2].
 Proof. vm_compute. reflexivity. Qed.
-Print Assumptions C17_common_example.
+Example C17_ex_nested : coarse_blockdim 0 [[12;12];[6;6;6;6];[24]] = UOk [12;12].
+Proof. vm_compute. reflexivity. Qed.
+
+Print Assumptions C17_refine_only_splits.
+Print Assumptions C17_common_is_finest_refinement.
+Print Assumptions C17_refine_no_growth.
+Print Assumptions C17_refine_zero_chunk_refuted.
+Print Assumptions C17_coarse_is_operand_or_refinement.
+Print Assumptions C17_refinement_never_grows_blocks.
+Print Assumptions C17_moved_fraction_range.
